@@ -10,14 +10,24 @@ import (
 )
 
 func podGroupsEqual(oldPodGroup, newPodGroup *enginev2alpha2.PodGroup) bool {
-	return reflect.DeepEqual(oldPodGroup.Spec, newPodGroup.Spec) &&
+	return specsEqual(oldPodGroup.Spec, newPodGroup.Spec) &&
 		reflect.DeepEqual(oldPodGroup.OwnerReferences, newPodGroup.OwnerReferences) &&
 		mapsEqualBySourceKeys(newPodGroup.Labels, oldPodGroup.Labels) &&
 		mapsEqualBySourceKeys(newPodGroup.Annotations, oldPodGroup.Annotations)
 }
 
+// specsEqual compares two specs the way they are stored: a pod group without sub groups reads back from the API
+// server with a nil list, the desired one is built with an empty list.
+func specsEqual(oldSpec, newSpec enginev2alpha2.PodGroupSpec) bool {
+	if len(oldSpec.SubGroups) == 0 && len(newSpec.SubGroups) == 0 {
+		oldSpec.SubGroups = nil
+		newSpec.SubGroups = nil
+	}
+	return reflect.DeepEqual(oldSpec, newSpec)
+}
+
 func mapsEqualBySourceKeys(source, target map[string]string) bool {
-	if source != nil && target == nil {
+	if len(source) > 0 && target == nil {
 		return false
 	}
 
@@ -37,7 +47,7 @@ func updatePodGroup(oldPodGroup, newPodGroup *enginev2alpha2.PodGroup) {
 }
 
 func copyStringMap(source map[string]string, target map[string]string) map[string]string {
-	if source != nil && target == nil {
+	if len(source) > 0 && target == nil {
 		target = map[string]string{}
 	}
 	for k, v := range source {
